@@ -358,8 +358,12 @@ BurstPaidOK(P, ln) ==          \* racing withdrawals never pay more than the wal
         \* trial credit that account linking inside the same burst may move into a wallet
         trials == SumOver([n \in DOMAIN prev.bal |-> IF n \notin DOMAIN prev.link /\ prev.bal[n].credit > 0
                                                     THEN prev.bal[n].credit ELSE 0], DOMAIN prev.bal)
+        reqs == ln.a.reqs
+        \* credit booked directly by store operations of the same burst
+        direct == SumOver([i \in DOMAIN reqs |-> IF reqs[i].op \in {"AddAccountBalance", "AddNodeBalance"} /\ reqs[i].amt > 0
+                                                  THEN reqs[i].amt ELSE 0], DOMAIN reqs)
     IN \A w \in DOMAIN ln.st.paid :
-          LET owed == prev.acct[w].credit + prev.dep[w] + trials IN
+          LET owed == prev.acct[w].credit + prev.dep[w] + trials + direct IN
           ln.st.paid[w] - prev.paid[w] <= (IF owed > 0 THEN owed ELSE 0)
 
 BurstStep(ln) ==
